@@ -122,8 +122,13 @@ func c17Run(c c17Case) (sig, msg string, nontrivial bool) {
 			}
 		case "read":
 		}
-		// invariant: listings equal the model for every address
+		// Reading a listing prunes stale hashes as a side effect, so reading every address after every step would
+		// repair (and hide) a list that a removal left inconsistent. Listings are therefore compared only where the
+		// generated sequence itself reads: the address named by a "read" step, and every address after the last step.
 		for wi, k := range ks {
+			if !(op.K == "read" && wi == op.From%c.Wallets) && step != len(c.Ops)-1 {
+				continue
+			}
 			got, lerr := c17Listing(h, k.Addr)
 			if lerr != nil {
 				return "listing-corrupt", fmt.Sprintf("step %d (%+v): wallet %d: %v", step, op, wi, lerr), nontrivial
